@@ -3,6 +3,7 @@ CONSTANTS
   Inputs <- ShippedInputs
   GenEdits <- NoGenEdits
   Shipped = {"taxa_eof", "link", "positions"}
+  TsrValues = {TRUE}
   GenSteps = 0
   Quick = TRUE
   PumpK = 3
